@@ -56,20 +56,154 @@ func VerifH_C19_cb_oid() {
 	var b Builder
 	b.AddASN1ObjectIdentifier(oid)
 	out, err := b.Bytes()
-	vr.KnownFinding("C19-oid-leading-0x80", hasLeading80(body))
 	vr.Assert(err == nil, "re-encoding succeeds")
 	vr.Assert(bytes.Equal(out, in), "re-encoding reproduces consumed bytes")
 	vr.Cover("accepted")
 }
 
-// hasLeading80 reports whether some base-128 sub-identifier starts with 0x80.
-func hasLeading80(body []byte) bool {
-	start := true
-	for _, c := range body {
-		if start && c == 0x80 {
-			return true
-		}
-		start = c&0x80 == 0
+// derElem is the harness's independent reference for one short-form DER element
+// at the start of in: ok iff in holds tag, a short-form length and that many bytes.
+func derShortElem(in []byte) (tag byte, body []byte, total int, ok bool) {
+	if len(in) < 2 || in[0]&0x1f == 0x1f || in[1]&0x80 != 0 || 2+int(in[1]) > len(in) {
+		return 0, nil, 0, false
 	}
-	return false
+	return in[0], in[2 : 2+int(in[1])], 2 + int(in[1]), true
+}
+
+// C19: INTEGER contents accepted by the int64/uint64 readers re-encode identically.
+// verif: covers=i64-accepted,i64-rejected,u64-accepted,u64-rejected
+func VerifH_C19_cb_integer() {
+	n := vr.Int("n", 0, 10)
+	body := vr.Bytes("body", n)
+	in := append([]byte{byte(asn1.INTEGER), byte(n)}, body...)
+	{
+		s := String(in)
+		var v int64
+		if s.readASN1Int64(&v) {
+			vr.Assert(len(s) == 0, "int64: element consumed")
+			var b Builder
+			b.AddASN1Int64(v)
+			out, err := b.Bytes()
+			vr.Assert(err == nil && bytes.Equal(out, in), "int64: re-encoding reproduces input")
+			vr.Cover("i64-accepted")
+		} else {
+			vr.Cover("i64-rejected")
+		}
+	}
+	{
+		s := String(in)
+		var v uint64
+		if s.readASN1Uint64(&v) {
+			vr.Assert(len(s) == 0, "uint64: element consumed")
+			var b Builder
+			b.AddASN1Uint64(v)
+			out, err := b.Bytes()
+			vr.Assert(err == nil && bytes.Equal(out, in), "uint64: re-encoding reproduces input")
+			vr.Cover("u64-accepted")
+		} else {
+			vr.Cover("u64-rejected")
+		}
+	}
+}
+
+// C19: tagged INTEGER / ENUMERATED readers.
+// verif: covers=tag-accepted,enum-accepted
+func VerifH_C19_cb_integer_tagged() {
+	n := vr.Int("n", 0, 9)
+	body := vr.Bytes("body", n)
+	tag := asn1.Tag(vr.U8("tag"))
+	vr.Assume(tag&0x1f != 0x1f)
+	in := append([]byte{byte(tag), byte(n)}, body...)
+	{
+		s := String(in)
+		var v int64
+		if s.ReadASN1Int64WithTag(&v, tag) {
+			var b Builder
+			b.AddASN1Int64WithTag(v, tag)
+			out, err := b.Bytes()
+			vr.Assert(err == nil && bytes.Equal(out, in), "tagged int64: re-encoding reproduces input")
+			vr.Cover("tag-accepted")
+		}
+	}
+	if tag == asn1.ENUM {
+		s := String(in)
+		var e int
+		if s.ReadASN1Enum(&e) {
+			var b Builder
+			b.AddASN1Enum(int64(e))
+			out, err := b.Bytes()
+			vr.Assert(err == nil && bytes.Equal(out, in), "enum: re-encoding reproduces input")
+			vr.Cover("enum-accepted")
+		}
+	}
+}
+
+// C19: BOOLEAN and BIT STRING.
+// verif: covers=bool-accepted,bits-accepted,bits-rejected
+func VerifH_C19_cb_bool_bits() {
+	n := vr.Int("n", 0, 5)
+	body := vr.Bytes("body", n)
+	{
+		in := append([]byte{byte(asn1.BOOLEAN), byte(n)}, body...)
+		s := String(in)
+		var v bool
+		if s.ReadASN1Boolean(&v) {
+			var b Builder
+			b.AddASN1Boolean(v)
+			out, err := b.Bytes()
+			vr.Assert(err == nil && bytes.Equal(out, in), "boolean: re-encoding reproduces input")
+			vr.Cover("bool-accepted")
+		}
+	}
+	{
+		in := append([]byte{byte(asn1.BIT_STRING), byte(n)}, body...)
+		s := String(in)
+		var bs encoding_asn1.BitString
+		if s.ReadASN1BitString(&bs) {
+			vr.Assert(len(s) == 0, "bit string consumed")
+			pad := len(bs.Bytes)*8 - bs.BitLength
+			vr.Assert(pad >= 0 && pad <= 7, "padding count in range")
+			vr.Assert(int(body[0]) == pad, "padding count is the encoded one")
+			if len(bs.Bytes) > 0 {
+				vr.Assert(bs.Bytes[len(bs.Bytes)-1]&(1<<uint(pad)-1) == 0, "padding bits are zero")
+			} else {
+				vr.Assert(pad == 0, "empty bit string has no padding")
+			}
+			if pad == 0 {
+				var b Builder
+				b.AddASN1BitString(bs.Bytes)
+				out, err := b.Bytes()
+				vr.Assert(err == nil && bytes.Equal(out, in), "bit string: re-encoding reproduces input")
+			}
+			vr.Cover("bits-accepted")
+		} else {
+			vr.Cover("bits-rejected")
+		}
+	}
+}
+
+// C19: long-form lengths: only the minimal form is accepted (filler bodies).
+// verif: covers=long-accepted,long-rejected
+func VerifH_C19_cb_long_header() {
+	sizes := []int{127, 128, 255, 256}
+	if vr.Tier() == 1 {
+		sizes = append(sizes, 65535, 65536)
+	}
+	bodyLen := sizes[vr.Int("size", 0, len(sizes)-1)]
+	hn := vr.Int("hn", 2, 6)
+	hdr := vr.Bytes("hdr", hn)
+	in := append(append([]byte{}, hdr...), make([]byte, bodyLen)...)
+	s := String(in)
+	var body String
+	var tag asn1.Tag
+	if !s.ReadAnyASN1(&body, &tag) {
+		vr.Cover("long-rejected")
+		return
+	}
+	consumed := in[:len(in)-len(s)]
+	var b Builder
+	b.AddASN1(tag, func(c *Builder) { c.AddBytes(body) })
+	out, err := b.Bytes()
+	vr.Assert(err == nil && bytes.Equal(out, consumed), "long form: re-encoding reproduces consumed bytes")
+	vr.Cover("long-accepted")
 }
